@@ -238,6 +238,43 @@ def r4_mirror(repo: Repo, rep):
         rep.check(R, good, fi.site(), fi.fq, "bary[u+v >= 1] = (1, 1) - bary[u+v >= 1]", dump(stores[0].node)[:140] if stores else "no store", dump(stores[0].node)[:140] if stores else "")
     if n == 0:
         rep.undecided(R, fi.site(), fi.fq, "a mirroring path", "none")
+    r4b_index_provenance(repo, rep, R)
+
+
+def _mask_subject(idx: ast.AST):
+    """tensor whose rows an index / mask was computed from: where(sum(Y, ..) ⋄ c) / sum(Y, ..) ⋄ c -> Y"""
+    if isinstance(idx, ast.Tuple) and len(idx.elts) == 1:
+        idx = idx.elts[0]
+    if isinstance(idx, ast.Call) and attr_chain(idx.func) in ("torch.where", "torch.nonzero") and len(idx.args) == 1:
+        idx = idx.args[0]
+    if isinstance(idx, ast.Compare) and len(idx.ops) == 1:
+        for side in (idx.left, idx.comparators[0]):
+            if isinstance(side, ast.Call) and attr_chain(side.func) == "torch.sum" and side.args:
+                return side.args[0]
+    return None
+
+
+def r4b_index_provenance(repo: Repo, rep, R):
+    """an index computed from the rows of one tensor selects rows of THAT tensor"""
+    tri = repo.cls(f"{DOM}.domain2D.triangle.Triangle")
+    n = 0
+    for mname, fi in tri.methods.items():
+        for p in paths(fi.node, track_stores=False):
+            if p.ret is RAISE:
+                continue
+            # value of every local *before* each store: replay the events in order
+            for e in p.events:
+                if e.kind != "store" or e.raw is None or not isinstance(e.raw, ast.Subscript) or not isinstance(e.raw.value, ast.Name):
+                    continue
+                subj = _mask_subject(e.target.slice if isinstance(e.target, ast.Subscript) else None)
+                if subj is None:
+                    continue
+                n += 1
+                base = e.target.value
+                same = dump(subj) == dump(base)
+                rep.check(R, same, fi.site(e.node), fi.fq, "rows selected by a mask are rows of the tensor the mask was computed from",
+                          f"mask from `{dump(subj)[:70]}` applied to `{dump(base)[:70]}`", f"mask of {dump(subj)[:50]} on {dump(base)[:50]}")
+    return n
 
 
 def _mirror_mask(idx: ast.AST, b: str) -> bool:
